@@ -83,7 +83,7 @@ func runC05(tier string, _ []string) int {
 			switch class {
 			case "root-tombstone":
 				node, parent, edgeWrite, mustRefuse = in.RootID, "root", true, true
-				pts = data.Points{{Type: data.PointTypeTombstone, Time: d.now(), Value: 1, Origin: "u"}}
+				pts = data.Points{{Type: data.PointTypeTombstone, Key: []string{"", "", "0"}[r.Intn(3)], Time: d.now(), Value: []float64{1, 1, 3, 0.5}[r.Intn(4)], Tombstone: []int{0, 0, 1}[r.Intn(3)], Origin: "u"}}
 				if r.Chance(0.3) {
 					pts = append(data.Points{{Type: "role", Time: d.now(), Text: "x"}}, pts...)
 				}
